@@ -739,16 +739,35 @@ def _eval(spec):
 
 
 def _grown_registry(spec):
-    """A fresh registry object that held only the first `grow` extensions when the same expression / HUGR was
-    resolved against it once, and received the others afterwards: what is replaced must depend on what the
-    registry holds when resolving, not on what it held at an earlier resolution."""
+    """A fresh registry object that held less when the same expression / HUGR was resolved against it once, and got
+    its final content afterwards: what is replaced must depend on what the registry holds when resolving, not on
+    what it held at an earlier resolution.  The first `grow` extensions are there from the start; every later one
+    is either added whole afterwards (`add_extension`), or — for every other registry, so that no `add_extension`
+    call follows the earlier resolution — registered from the start without its type definitions, which are then
+    added in place (`add_type_def` on the registered extension object)."""
     from hugr.ext import ExtensionRegistry
     from hugr.hugr import Hugr
 
     r = ExtensionRegistry()
     ents = spec["reg"]
-    for ent in ents[: spec["grow"]]:
-        r.add_extension(_std_ext(ent[1], ent[2]) if ent[0] == "std" else _gen_ext(ent[1]))
+
+    def full(ent):
+        return copy.deepcopy(_std_ext(ent[1], ent[2])) if ent[0] == "std" else _gen_ext(ent[1])
+
+    later = []
+    for k, ent in enumerate(ents):
+        e = full(ent)
+        if k < spec["grow"]:
+            r.add_extension(e)
+        elif len(json.dumps(spec["reg"])) % 2 == 1:
+            # registered from the start, but without its type definitions (taken out of the fresh object before
+            # anything looked at it); they are added back through `add_type_def` after the earlier resolution
+            tds = list(e.types.values())
+            e.types.clear()
+            r.add_extension(e)
+            later.append(("defs", e, tds))
+        else:
+            later.append(("ext", None, e))
     try:  # the earlier resolution (on a throw-away copy)
         k = spec["kind"]
         if k == "ty":
@@ -761,8 +780,12 @@ def _grown_registry(spec):
             Hugr.load_json(doc_of(spec["src"])).resolve_extensions(r)
     except Exception:  # noqa: BLE001
         pass
-    for ent in ents[spec["grow"]:]:
-        r.add_extension(_std_ext(ent[1], ent[2]) if ent[0] == "std" else _gen_ext(ent[1]))
+    for how, shell, e in later:
+        if how == "ext":
+            r.add_extension(e)
+        else:
+            for td in e:
+                shell.add_type_def(td)
     return r
 
 
